@@ -31,6 +31,9 @@ func runC15(c *eng.Ctx, tier string) {
 		return
 	}
 	l := moduleLocks(c)
+	// a watcher wraps the memoised handle of its name: what Updater.Get rebuilds
+	// from is what that handle reads
+	handleBoundToName(c, "R-C15-3")
 	// R-C15-1 creation sites
 	n := 0
 	for _, f := range p.PkgFuncs(setecPkg) {
@@ -367,13 +370,14 @@ func c15Get(c *eng.Ctx) {
 	// Close calls
 	nClose := 0
 	eng.Instrs(get, func(in ssa.Instruction) {
-		call, ok := in.(*ssa.Call)
-		if !ok || !call.Call.IsInvoke() || call.Call.Method.Name() != "Close" {
+		call, ok := in.(ssa.CallInstruction)
+		if !ok || !call.Common().IsInvoke() || call.Common().Method.Name() != "Close" {
 			return
 		}
+		_, deferred := in.(*ssa.Defer)
 		nClose++
 		// operand: type assertion of a load of u.value that precedes every store
-		src := call.Call.Value
+		src := call.Common().Value
 		if ex, isEx := src.(*ssa.Extract); isEx {
 			if ta, isTA := ex.Tuple.(*ssa.TypeAssert); isTA {
 				src = ta.X
@@ -391,15 +395,16 @@ func c15Get(c *eng.Ctx) {
 						okOld = false
 					}
 					// and the Close must happen before the new value could be closed: the close is before the store too
-					if hit, _ := eng.Search(get, st, nil, nil, func(x ssa.Instruction) bool { return x == ssa.Instruction(call) }); hit != nil {
+					// (a deferred Close runs at exit with the operand evaluated at the defer statement)
+					if hit, _ := eng.Search(get, st, nil, nil, func(x ssa.Instruction) bool { return x == ssa.Instruction(call) }); hit != nil && !deferred {
 						okOld = false
 					}
 				}
 			}
 		}
-		c.Check(okOld && okErr(call), "R-C15-5", get, call.Pos(), eng.CallStr(&call.Call), "only the value held before the replacement is closed, only when the rebuild succeeded, never the current one", "operand "+eng.ValStr(call.Call.Value)+"; holding: "+eng.FactsString(call))
+		c.Check(okOld && okErr(call), "R-C15-5", get, call.Pos(), eng.CallStr(call.Common()), "only the value held before the replacement is closed, only when the rebuild succeeded (a Close deferred before the builder ran also fires when the build fails and the value is kept), never the current one", "operand "+eng.ValStr(call.Common().Value)+"; holding: "+eng.FactsString(call))
 	})
-	c.Check(nClose <= 1, "R-C15-5", get, get.Pos(), "number of Close sites in Get", "a replaced value is closed exactly once", itoa(nClose)+" sites")
+	c.Check(nClose == 1, "R-C15-5", get, get.Pos(), "number of Close sites in Get", "a replaced value is closed exactly once", itoa(nClose)+" sites")
 	if nClose == 1 {
 		// the close is on every successful-rebuild path (closed exactly once, not zero times) when the value is a Closer:
 		// from the ok edge of the type assertion the Close is reached before the store
